@@ -85,7 +85,7 @@ func (sum *AllSegStoreSummary) SetInMemoryMetricsSsmSizeMB(val uint64) {
 }
 
 func (sum *AllSegStoreSummary) DecrementTotalMetricsSegmentCount() {
-	if sum.TotalMetricsSegmentCount == 0 {
+	if atomic.LoadUint64(&sum.TotalMetricsSegmentCount) == 0 {
 		return
 	}
 	atomic.AddUint64(&sum.TotalMetricsSegmentCount, ^uint64(0))
@@ -96,7 +96,7 @@ func (sum *AllSegStoreSummary) GetUsedMemoryBytes() uint64 {
 		return 0
 	}
 
-	return 1e6 * (sum.InMemoryBlockMicroIndexSizeMB +
-		sum.InMemorySsmSizeMB +
-		sum.InMemoryMetricsBSumSizeMB)
+	return 1e6 * (atomic.LoadUint64(&sum.InMemoryBlockMicroIndexSizeMB) +
+		atomic.LoadUint64(&sum.InMemorySsmSizeMB) +
+		atomic.LoadUint64(&sum.InMemoryMetricsBSumSizeMB))
 }
